@@ -702,10 +702,19 @@ func (a *Aff) transfer(n ast.Node, st *affSpace) *affSpace {
 			}
 			forms[i] = a.VarForm(i).add(one, k)
 		}
-	case *ast.DeclStmt:
+	case *ast.DeclStmt, *ast.ValueSpec:
+		// go/cfg puts the value specs of a var declaration into the block, not the DeclStmt
 		havocCalls(x)
-		if gd, ok := x.Decl.(*ast.GenDecl); ok {
-			for _, sp := range gd.Specs {
+		var specs []ast.Spec
+		if ds, ok := x.(*ast.DeclStmt); ok {
+			if gd, ok := ds.Decl.(*ast.GenDecl); ok {
+				specs = gd.Specs
+			}
+		} else {
+			specs = []ast.Spec{x.(*ast.ValueSpec)}
+		}
+		{
+			for _, sp := range specs {
 				vs, ok := sp.(*ast.ValueSpec)
 				if !ok {
 					continue
